@@ -7,6 +7,9 @@ require (
 	google.golang.org/protobuf v1.36.11
 )
 
-require golang.org/x/sys v0.42.0 // indirect
+require (
+	github.com/chzyer/readline v1.5.1 // indirect
+	golang.org/x/sys v0.42.0 // indirect
+)
 
 replace go.starlark.net => /repo
